@@ -242,8 +242,13 @@ class Session:
             tok = bytes([tok[0] ^ 0x55]) + tok[1:]
         elif kind == "bad_key":
             key = bytes([key[0] ^ 0x55]) + key[1:]
-        if self.cfg.get("cred_form", "hex") == "hex":
+        form = self.cfg.get("cred_form", "hex")
+        if form == "hex":
             return tok.hex(), key.hex()
+        if form == "hex_bytes":
+            return tok.hex(), key               # the two arguments need not come in the same form
+        if form == "bytes_hex":
+            return tok, key.hex()
         return tok, key
 
     def load_directives(self, op):
